@@ -131,6 +131,9 @@ func c05One(rd *intReader, in []byte) (nontrivial bool, err error) {
 
 // CheckC05: Ints[0] = reader index, or -1 for all readers.
 func CheckC05(c *core.Case) error {
+	if c.Kind == "cold" {
+		return checkCold(c)
+	}
 	in := inputOf(c)
 	for ri := range c05Readers {
 		if len(c.Ints) > 0 && c.Ints[0] >= 0 && int(c.Ints[0]) != ri {
